@@ -246,3 +246,25 @@ def to_tla(v):
             return "[" + ", ".join("%s |-> %s" % (k, to_tla(x)) for k, x in v.items()) + "]"
         return "(" + " @@ ".join("%s :> %s" % (to_tla(k), to_tla(x)) for k, x in v.items()) + ")"
     raise TypeError("cannot render %r" % (v,))
+
+
+def parse_prefix(text, pos=0):
+    """Parse one value starting at text[pos]; returns (value, end position)."""
+    p = _P(text)
+    p.i = pos
+    v = p.top_value()
+    return v, p.i
+
+
+def extract_tagged(out, tag):
+    """All tuples  << "tag", ... >>  that PrintT wrote into TLC's output (possibly pretty-printed
+    over several lines)."""
+    import re
+    res = []
+    for m in re.finditer(r'<<\s*"%s"' % re.escape(tag), out):
+        try:
+            v, _ = parse_prefix(out, m.start())
+        except ParseError:
+            continue
+        res.append(v)
+    return res
